@@ -90,9 +90,35 @@ def _needs_value(fr):
     return fr.kind in ("tuple", "record") and fr.cur is not None and not fr.fills.get(fr.cur)
 
 
+MONO = ("list", "record", "tuple", "integer", "real", "string", "boolean", "null+list")
+
+
 @st.composite
-def value_command(draw, model, narrays, max_depth, cplx=True):
+def _mono_command(draw, mono):
+    """a top-level value of the one kind a homogeneous history is made of: the builder node at the top then stays a ListBuilder /
+    RecordBuilder / TupleBuilder / StringBuilder / ... (not a UnionBuilder), and that node meets the ill-nested command"""
+    if mono == "list" or (mono == "null+list" and draw(st.integers(0, 3))):
+        return ["beginlist"]
+    if mono == "null+list":
+        return ["null"]
+    if mono == "record":
+        return ["beginrecord", None]
+    if mono == "tuple":
+        return ["begintuple", 2]
+    if mono == "integer":
+        return ["integer", draw(_ints)]
+    if mono == "real":
+        return ["real", draw(_reals)]
+    if mono == "string":
+        return ["string", draw(_text)]
+    return ["boolean", draw(st.booleans())]
+
+
+@st.composite
+def value_command(draw, model, narrays, max_depth, cplx=True, mono=None):
     """one command that puts (or begins) a value at the current position"""
+    if mono is not None and model.depth() == 0:
+        return draw(_mono_command(mono))
     k = draw(st.integers(0, 99))
     deep = model.depth() >= max_depth
     if k < 68 or deep:
@@ -112,7 +138,7 @@ def value_command(draw, model, narrays, max_depth, cplx=True):
 
 
 @st.composite
-def next_command(draw, model, narrays, max_depth, cplx=True):
+def next_command(draw, model, narrays, max_depth, cplx=True, mono=None):
     fr = model.top()
     if fr.kind in ("root", "list"):
         k = draw(st.integers(0, 99))
@@ -122,11 +148,11 @@ def next_command(draw, model, narrays, max_depth, cplx=True):
             return ["snapshot"]
         if k < 34 and fr.kind == "root":
             return ["clear"]
-        if k < 38 and narrays:
+        if k < 38 and narrays and not (mono is not None and fr.kind == "root"):
             return ["extend", draw(st.integers(0, narrays - 1))]
-        return draw(value_command(model, narrays, max_depth, cplx))
+        return draw(value_command(model, narrays, max_depth, cplx, mono))
     if _needs_value(fr):
-        return draw(value_command(model, narrays, max_depth, cplx))
+        return draw(value_command(model, narrays, max_depth, cplx, mono))
     if fr.kind == "tuple":
         todo = [i for i in range(fr.n) if i not in fr.fills]
         if not todo:
@@ -235,8 +261,10 @@ def ab_history(draw, max_steps):
     model = B.BuilderModel([M.decode(d)[1] for d in arrays])
     max_depth = draw(st.sampled_from([1, 2, 3, 3, 4]))
     cplx = draw(st.integers(0, 3)) == 0      # complex values only in a quarter of the histories (several known findings live there)
+    # a quarter of the histories are homogeneous at the top level (see _mono_command)
+    mono = draw(st.sampled_from(MONO)) if draw(st.integers(0, 3)) == 0 else None
     budget = draw(st.integers(1, max_steps))
-    ill_at = draw(st.integers(0, budget)) if draw(st.integers(0, 7)) == 0 else -1
+    ill_at = draw(st.integers(0, budget)) if draw(st.integers(0, 7 if mono is None else 2)) == 0 else -1
     # half of the ill-nested histories wait for an open tuple/record (wrong tuple index, slot filled twice, value without key)
     ill_in_struct = ill_at >= 0 and draw(st.booleans())
     steps = []
@@ -266,12 +294,13 @@ def ab_history(draw, max_steps):
             tail = [["snapshot"], ["clear"], ["snapshot"], ["integer", 1], ["beginlist"], ["real", 0.5], ["endlist"], ["snapshot"]]
             steps.extend(tail[:draw(st.integers(0, len(tail)))])
             break
-        cmd = draw(next_command(model, len(arrays), max_depth, cplx))
+        cmd = draw(next_command(model, len(arrays), max_depth, cplx, mono))
         model.step(cmd)
         steps.append(cmd)
     if model.state == "ok" and draw(st.integers(0, 9)) < 8:
         steps.extend(_closing(model))
     case["ill"] = ill
+    case["mono"] = mono
     case["steps"] = steps
     return case
 
@@ -708,6 +737,8 @@ def run_case(case):
     if model.state != "ok":
         tags.add("ends:" + model.state)
     tags.add("via2:" + via2)
+    if case.get("mono"):
+        tags.add("mono:" + case["mono"] + ("+ill" if case.get("ill") else ""))
     if fast:
         tags.add("fast")
     if layouts:
